@@ -26,6 +26,9 @@
 //	             rest closes its configuration closures in column one.
 //	dual build   a project may carry a pom.xml and a build.gradle side by side (Project.Second); the artifact ids of
 //	             the two files are disjoint, so every reported entry can be attributed to the file declaring it.
+//	location     the project directory is <scratch>/proj or, in a third of the cases, lies below directories named
+//	             build, target, out, tmp, dist (…/ci/build/shop); 1 in 10 single-pom projects also contains the copy
+//	             of its pom that a Maven build leaves under target/classes/META-INF/maven/.
 //	Java         0-6 files (class / interface, a few enum / annotation-type files), under src/main/java and
 //	             src/test/java, importing a chosen subset of the declared groups (single-type, on-demand, static),
 //	             plus near-miss imports (a proper prefix of a group) and unrelated imports.
@@ -88,7 +91,17 @@ type Project struct {
 	Second *Build     `json:"second,omitempty"`
 	Java   []JavaFile `json:"java"`
 	Mode   string     `json:"mode"` // how the used subset was chosen
+	// Location is the project directory relative to the case's scratch directory (slash separated). The analysed
+	// directory is the last element; the elements above it are ordinary directory names a checkout may lie below
+	// (build, target, out, tmp, dist, ...): they are not part of the project.
+	Location string `json:"location"`
+	// OutputCopy, when set, is the path (relative to the project) of a byte-identical copy of the pom.xml that a Maven
+	// build leaves in its output directory (target/classes/META-INF/maven/<groupId>/<artifactId>/pom.xml). The
+	// statement does not say whether such a copy declares dependencies: see oracle.CheckUnused.
+	OutputCopy string `json:"output_copy,omitempty"`
 }
+
+var locations = []string{"build/shop", "ci/build/shop", "target/api", "work/target/api", "out/app", "tmp/work/app", "dist/pkg", "builds/target-app", "checkout/my.build/app"}
 
 var realGroups = []string{
 	"org.springframework.boot", "org.springframework", "org.springframework.cloud", "org.apache.commons",
@@ -1160,6 +1173,15 @@ func Generate(r *run.Rand, system string, dual bool) *Project {
 		p.Second = gen(other, 100)
 	}
 	p.Java, p.Mode = GenJava(jr, p.Builds()...)
+	// where the project lies, and whether a build left a copy of the pom behind; own stream, drawn last
+	lr := r.Fork()
+	p.Location = "proj"
+	if lr.Chance(1, 3) {
+		p.Location = lr.Pick(locations)
+	}
+	if system == "maven" && !dual && len(b.Entries) > 0 && lr.Chance(1, 10) {
+		p.OutputCopy = "target/classes/META-INF/maven/com.app/demo/pom.xml"
+	}
 	return p
 }
 
@@ -1173,7 +1195,7 @@ func (p *Project) ShapeKey() string {
 		}
 		s = append(s, "|")
 	}
-	s = append(s, p.Mode)
+	s = append(s, p.Mode, p.Location, p.OutputCopy)
 	for _, f := range p.Java {
 		s = append(s, fmt.Sprintf("%s%d", f.Kind[:1], len(f.Imports)))
 	}
